@@ -1,9 +1,136 @@
+import RsMatterVerif.Model.Expand
+import Driver.C05
 import Driver.Util
-/-! Driver for C06: not built yet. -/
+/-! Driver for C06: the access-control configuration lines are those of C05 (replayed on
+`Model/Acl` by `Driver.C05.step`); `node` installs node metadata, `x` runs one request through the
+cursor machine of `Model/Expand` (DIS) and compares the implementation's answer with the
+declarative `Expand.expected` (ORA). -/
 namespace Driver.C06
+open Acl Expand
 
-def run : IO UInt32 := do
-  IO.eprintln "C06: driver not built yet"
-  return 2
+structure St where
+  acl : Driver.C05.St := {}
+  node : Node := []
+
+def parseLeaf (fm : Nat) (withArray : Bool) (s : String) : Option Leaf :=
+  match s.splitOn "." with
+  | [i, a, arr] =>
+    if withArray then
+      match i.toNat?, a.toNat? with
+      | some i, some a => some { id := i, access := a, array := arr = "1", enabled := fm.testBit (i % 32) }
+      | _, _ => none
+    else none
+  | [i, a] =>
+    if withArray then none else
+    match i.toNat?, a.toNat? with
+    | some i, some a => some { id := i, access := a, array := false, enabled := fm.testBit (i % 32) }
+    | _, _ => none
+  | _ => none
+
+def parseCluster (s : String) : Option Cluster :=
+  match s.splitOn "^" with
+  | [i, fm, attrs, cmds] =>
+    match i.toNat?, fm.toNat? with
+    | some i, some fm => do
+      let av ← if attrs = "-" then some [] else (attrs.splitOn ",").mapM (parseLeaf fm true)
+      let cv ← if cmds = "-" then some [] else (cmds.splitOn ",").mapM (parseLeaf fm false)
+      pure { id := i, attrs := av, cmds := cv }
+    | _, _ => none
+  | _ => none
+
+def parseEndpoint (s : String) : Option Endpoint :=
+  match s.splitOn "@" with
+  | [i, dts, cls] =>
+    match i.toNat? with
+    | some i => do
+      let dv ← if dts = "-" then some [] else (dts.splitOn "+").mapM (·.toNat?)
+      let cv ← if cls = "-" then some [] else (cls.splitOn "|").mapM parseCluster
+      pure { id := i, deviceTypes := dv, clusters := cv }
+    | none => none
+  | _ => none
+
+def parseNode (s : String) : Option Node :=
+  if s = "-" then some [] else (s.splitOn ";").mapM parseEndpoint
+
+def parsePath (s : String) : Option Path :=
+  match s.splitOn "/" with
+  | [e, c, l] =>
+    match Driver.C05.optNum e, Driver.C05.optNum c, Driver.C05.optNum l with
+    | some e, some c, some l => some { endpoint := e, cluster := c, leaf := l }
+    | _, _, _ => none
+  | _ => none
+
+def parseTriple (s : String) : Option (Nat × Nat × Nat) :=
+  match s.splitOn "." with
+  | [e, c, l] =>
+    match e.toNat?, c.toNat?, l.toNat? with
+    | some e, some c, some l => some (e, c, l)
+    | _, _, _ => none
+  | _ => none
+
+def fmtOpt (o : Option Nat) : String := match o with | some n => toString n | none => "*"
+
+def statusName : Status → String
+  | .unsupportedEndpoint => "UnsupportedEndpoint"
+  | .unsupportedCluster => "UnsupportedCluster"
+  | .unsupportedAttribute => "UnsupportedAttribute"
+  | .unsupportedCommand => "UnsupportedCommand"
+  | .unsupportedRead => "UnsupportedRead"
+  | .unsupportedWrite => "UnsupportedWrite"
+  | .needsTimedInteraction => "NeedsTimedInteraction"
+  | .unsupportedAccess => "UnsupportedAccess"
+
+def b01 (b : Bool) : String := if b then "1" else "0"
+
+/-- `CmdDetails` does not carry the wildcard flag of the path and has no array flag -/
+def fmtOut (op : Operation) : Out → String
+  | .item ep cl leaf w a =>
+    if op = .invoke then s!"ok {ep} {cl} {leaf} w- a0" else s!"ok {ep} {cl} {leaf} w{b01 w} a{b01 a}"
+  | .status p s => s!"st {fmtOpt p.endpoint}/{fmtOpt p.cluster}/{fmtOpt p.leaf} {statusName s}"
+
+def fmtOuts (op : Operation) (l : List Out) : String :=
+  if l.isEmpty then "-" else " | ".intercalate (l.map (fmtOut op))
+
+def FUEL : Nat := 100000
+
+def step (st : St) (line : String) : St × String :=
+  let (opText, out) := splitArrow line
+  match words opText with
+  | "case" :: _ => ({}, "case")
+  | ["node", spec] =>
+    match parseNode spec with
+    | none => (st, "BAD node")
+    | some n =>
+      let m := s!"ok {n.length}"
+      if out = m then ({ st with node := n }, "ok") else ({ st with node := n }, s!"DIS {m}")
+  | ["x", kind, fab, mode, aux, id, cats, timed, excl, paths] =>
+    let op : Operation := if kind = "r" then .read else if kind = "w" then .write else .invoke
+    match fab.toNat?, Driver.C05.modeOf mode, id.toNat?, Driver.C05.natList cats,
+        (if excl = "-" then some [] else (excl.splitOn ",").mapM parseTriple),
+        (((paths.splitOn ";").filter (fun s => s ≠ "" ∧ s ≠ "-")).mapM parsePath) with
+    | some fab, some mode, some id, some cats, some excl, some paths =>
+      let subj := cats.foldl addCatid (subjectsNew id)
+      let acc : Accessor := { fabIdx := fab, auxAclEnabled := aux = "1", subjects := subj, authMode := mode }
+      -- only `expand_read` takes a caller-supplied filter
+      let excl := if op = .read then excl else []
+      let ctx : Ctx := { fabrics := st.acl.fabrics, accessor := acc, timed := (op ≠ .read) && timed = "1",
+                         filter := fun e c l => !(excl.contains (e, c, l)) }
+      let model := fmtOuts op (expand ctx op st.node paths FUEL)
+      let inScope := nodeWF st.node &&
+        st.acl.fabrics.all (fun f => f.acl.all (fun e => Driver.C05.canonicalPriv e.privilege))
+      let spec := fmtOuts op (expected ctx op st.node paths)
+      -- `resume_endpoint_index` debug-asserts `Node`'s documented invariant (endpoints strictly
+      -- ascending); a panic on a node violating it is the stated precondition, not a finding
+      let sorted : Bool := decide ((st.node.map (·.id)).Pairwise (· < ·))
+      if out.startsWith "panic" && !sorted then (st, "ok")
+      else if out.startsWith "panic" ∨ (out.splitOn "HANG").length > 1 then (st, s!"ORA {out}")
+      else if inScope && spec ≠ out then (st, s!"ORA spec=[{spec}]")
+      else if model = out then (st, "ok") else (st, s!"DIS {model}")
+    | _, _, _, _, _, _ => (st, "BAD x")
+  | _ =>
+    let (a, o) := Driver.C05.step st.acl line
+    ({ st with acl := a }, o)
+
+def run : IO UInt32 := Driver.runLoop ({} : St) step
 
 end Driver.C06
